@@ -141,7 +141,7 @@ def gen_cases(tier, seed):
                     'IC': [r.choice([0, 0, 1]) for _ in range(desc['n'])], 'tmin': r.choice([0, -2, 1.5]),
                     'tmax': r.choice(['inf', 1.0, 3.0, 2]) if m in ('sir', 'threshold', 'watts', 'kofn', 'global', 'slow_sir') else r.choice([0.5, 1.5, 2]),     # span; tmin=-2 with span 2: horizon exactly 0
                     'full': r.random() < 0.5, 'seed': cs, 'infl_form': r.choice(['list', 'tuple', 'set', 'iterator', 'generator', 'dictkeys']),
-                    'label_map': r.choice(['str', 'int0', 'rev_int', 'bool', 'emptystr']), 'return_subset': r.random() < 0.3})
+                    'label_map': r.choice(['str', 'int0', 'rev_int', 'bool', 'emptystr']), 'return_subset': r.random() < 0.3, 'ic_extra': r.random() < 0.3})
     nmax = 4 if q else 5
     k = 0
     for desc in gen.atlas(nmax, 2):
@@ -211,6 +211,11 @@ def run_case(case):
         return out
     nodes = list(G)
     IC = {lab(i): sts[min(case['IC'][i], len(sts) - 1)] for i in range(case['graph']['n'])}
+    # 'IC[node] is the status of node': the mapping may describe a larger population than G (entries for keys that are not nodes of G)
+    from ..simreg import _ic_argument
+    IC_arg = _ic_argument(IC, sts, case)
+    if len(IC_arg) > len(IC):
+        bump(res, 'runs_with_IC_entries_outside_G')
     tmin = case['tmin']
     tmax = float('inf') if case['tmax'] == 'inf' else (tmin + case['tmax'] if case['kind'] == 'e2' else case['tmax'])
     if case['model'] == 'slow_sir' and tmax != float('inf'):
@@ -242,7 +247,7 @@ def run_case(case):
             bump(res, 'runs_reporting_a_strict_subset_of_statuses')
 
     def call(full):
-        return EoN.Gillespie_complex_contagion(G, rate, rec_chooser, infl, IC, list(rs), tmin=tmin, tmax=tmax, parameters=('p',), return_full_data=full)
+        return EoN.Gillespie_complex_contagion(G, rate, rec_chooser, infl, IC_arg, list(rs), tmin=tmin, tmax=tmax, parameters=('p',), return_full_data=full)
     if case['kind'] == 'e2':
         fails, counters = [], {}
         try:
